@@ -161,12 +161,14 @@ def search_sum_rules_on_kernels(chk, thorough):
     cache = {}
     plans = [("ZM-VFNS", 4, 10.0), ("ZM-VFNS", 4, 100.0), ("FFNS", 4, 30.0)] + ([("ZM-VFNS", 4, 1e5), ("FFNS", 5, 50.0)] if thorough else [])
     for fns, nfff, Q2 in plans:
-        names = [f"{k}_{f}" for k in ("F2", "F3") for f in ("light", "total", "charm", "bottom")]
-        for proj in ("neutrino", "positron") if thorough else ("neutrino",):
+        for process, proj in ([("CC", "neutrino"), ("NC", "electron")] + ([("CC", "positron")] if thorough else [])):
+            names = [f"{k}_{f}" for k in (("F2", "F3") if process == "CC" else ("F3", "g1")) for f in ("light", "total", "charm", "bottom")]
+            if process == "NC" and fns != "ZM-VFNS":
+                continue
             try:
-                runner = yadism.Runner(cards.theory(PTO=max_o, FNS=fns, NfFF=nfff), cards.obs({n_: [dict(x=0.1, Q2=Q2)] for n_ in names}, prDIS="CC", ProjectileDIS=proj))
+                runner = yadism.Runner(cards.theory(PTO=max_o, FNS=fns, NfFF=nfff), cards.obs({n_: [dict(x=0.1, Q2=Q2)] for n_ in names}, prDIS=process, ProjectileDIS=proj))
             except Exception as e:  # noqa
-                chk.search_case("sum_rules_on_assembled_kernels", False, what=f"CC {fns} Q2={Q2}: {type(e).__name__}: {e}"[:200], data=dict(FNS=fns, Q2=Q2))
+                chk.search_case("sum_rules_on_assembled_kernels", False, what=f"{process} {fns} Q2={Q2}: {type(e).__name__}: {e}"[:200], data=dict(FNS=fns, Q2=Q2))
                 continue
             for name in names:
                 esf = runner.observables[name].elements[0]
@@ -181,14 +183,21 @@ def search_sum_rules_on_kernels(chk, thorough):
                     if ".light." not in mod or "NonSinglet" not in cname:
                         continue
                     qs = sorted({abs(p_) for p_ in k.partons if p_ != 21})
-                    if not qs or not all(abs(k.partons.get(q_, 0.0) + k.partons.get(-q_, 0.0)) <= 1e-14 * max(abs(k.partons.get(q_, 0.0)), 1e-300) for q_ in qs):
+                    odd = bool(qs) and all(abs(k.partons.get(q_, 0.0) + k.partons.get(-q_, 0.0)) <= 1e-14 * max(abs(k.partons.get(q_, 0.0)), 1e-300) for q_ in qs)
+                    if name.startswith("g1"):
+                        if cname != "NonSinglet":
+                            continue
+                        rule, expected, tol = "Bjorken", ns_series, {1: 1e-9, 2: 3e-2, 3: 1e9}
+                    elif not odd:
                         continue  # not odd under q <-> qbar
-                    rule, expected, tol = ("Adler", lambda nf, o: 0.0, {1: 1e-9, 2: 2e-3, 3: 0.3}) if name.startswith("F2") else ("GLS", ns_series, {1: 1e-9, 2: 3e-2, 3: 0.3})
-                    nf = int(k.coeff.nf)
+                    else:
+                        rule, expected, tol = ("Adler", lambda nf, o: 0.0, {1: 1e-9, 2: 2e-3, 3: 0.3}) if name.startswith("F2") else ("GLS", ns_series, {1: 1e-9, 2: 3e-2, 3: 0.3})
+                    # the flavour number of the run at this Q2 (the Combiner's), not the one the kernel was built with
+                    nf = int(comb.nf)
                     for o in range(1, max_o + 1):
                         if not k.has_order(o):
                             continue
-                        key = (mod, cname, nf, o)
+                        key = (mod, cname, int(k.coeff.nf), o)
                         if key not in cache:
                             try:
                                 rsl = k.coeff[o]()
@@ -198,9 +207,81 @@ def search_sum_rules_on_kernels(chk, thorough):
                         m1 = cache[key]
                         if m1 is None:
                             continue
-                        d = dict(rule=rule, obs=name, FNS=fns, Q2=Q2, projectile=proj, kernel=mod.split(".")[-1] + "." + cname, nf=nf, order=o, first_moment=None if isinstance(m1, Exception) else m1, expected=expected(nf, o), tolerance=tol[o])
+                        d = dict(rule=rule, obs=name, process=process, FNS=fns, Q2=Q2, projectile=proj, kernel=mod.split(".")[-1] + "." + cname, nf=nf, kernel_built_with_nf=int(k.coeff.nf), order=o, first_moment=None if isinstance(m1, Exception) else m1, expected=expected(nf, o), tolerance=tol[o])
                         ok = not isinstance(m1, Exception) and abs(m1 - expected(nf, o)) <= tol[o]
-                        chk.search_case("sum_rules_on_assembled_kernels", ok, what=f"{rule}: {name} CC {fns} Q2={Q2}: the kernel weighting (q - qbar) is {d['kernel']} with first moment {m1} at a_s^{o} instead of {expected(nf, o)}", data=d, sample=d if name == "F2_charm" and o == 2 else None)
+                        chk.search_case("sum_rules_on_assembled_kernels", ok, what=f"{rule}: {name} {process} {fns} Q2={Q2} (nf={nf}): the non-singlet kernel is {d['kernel']} with first moment {m1} at a_s^{o} instead of {expected(nf, o)}", data=d, sample=d if name == "F2_charm" and o == 2 else None)
+
+
+def published_rsl(key, nf):
+    """an RSL-like object built from the published closed forms only (nothing of yadism's kernels)"""
+    import types
+
+    reg, distr = PUBLISHED[key]
+    o = types.SimpleNamespace(args=dict(reg=None, sing=None, loc=None), reg=lambda z, _a, _r=reg, _n=nf: _r(z, _n), sing=None, loc=None)
+    if distr is not None:
+        d0, c1, c2 = distr
+        o.sing = lambda z, _a: c1 / (1 - z) + c2 * math.log(1 - z) / (1 - z)
+        o.loc = lambda x, _a: d0 + c1 * math.log(1 - x) + c2 * math.log(1 - x) ** 2 / 2
+    return o
+
+
+def search_runs_vs_closed_forms(chk, r, n, oracle="nlo_runs_vs_closed_forms"):
+    """first-principles reference for the simplest family (photon exchange, massless scheme, up to
+    a_s): every entry of the operator of a real run is x e_q^2 p_j(x) at LO and
+    x e_q^2 (C_q (x) p_j)(x), x sum_q e_q^2 (C_g/nf (x) p_j)(x) at NLO, with the published closed
+    forms, the charges, nf = 3 + #{(k m)^2 <= Q2} and an independent quadrature; the card's evolution
+    order, an explicit PTODIS and the threshold ratios are varied (none of them may change a_s^1)"""
+    import yadism
+
+    from .. import cards
+    from .c01 import indep_convolution
+
+    PIDS = [22, -6, -5, -4, -3, -2, -1, 21, 1, 2, 3, 4, 5, 6]
+    e2 = {q_: (4 / 9 if q_ % 2 == 0 else 1 / 9) for q_ in range(1, 7)}
+    forced = [dict(kind="F2", fl="total", pto=1, ptodis=None, kc=2.0, kb=1.0, Q2=6.0), dict(kind="F2", fl="light", pto=0, ptodis=1, kc=1.0, kb=1.0, Q2=20.0),
+              dict(kind="FL", fl="total", pto=0, ptodis=1, kc=1.0, kb=1.0, Q2=20.0), dict(kind="F2", fl="total", pto=2, ptodis=1, kc=0.7, kb=1.5, Q2=40.0)]
+    for i in range(n + len(forced)):
+        c = forced[i] if i < len(forced) else dict(kind=r.choice(["F2", "F2", "FL"]), fl=r.choice(["total", "light"]), pto=r.choice([0, 1, 2]), ptodis=r.choice([None, 1]), kc=float(r.choice([1.0, 2.0, 0.7])), kb=float(r.choice([1.0, 1.5])), Q2=float(r.choice([1.5, 3.0, 6.0, 20.0, 40.0, 300.0])))
+        if c["ptodis"] is None and c["pto"] != 1:
+            c["ptodis"] = 1
+        mc, mb, mt = 1.51, 4.92, 172.5
+        nf = 3 + sum(1 for m_, k_ in ((mc, c["kc"]), (mb, c["kb"]), (mt, 1.0)) if (k_ * m_) ** 2 <= c["Q2"])
+        N = r.choice([6, 7])
+        grid = cards.default_grid(N, 0.01)
+        x = float(r.uniform(grid[1], 0.9))
+        name = f"{c['kind']}_{c['fl']}"
+        case = dict(c, obs=name, x=x, nf=nf, N=N)
+        try:
+            runner = yadism.Runner(cards.theory(PTO=c["pto"], PTODIS=c["ptodis"], FNS="ZM-VFNS", kcThr=c["kc"], kbThr=c["kb"], Q0=1.0), cards.obs({name: [dict(x=x, Q2=c["Q2"])]}, prDIS="EM", interpolation_xgrid=grid, interpolation_polynomial_degree=3))
+            real = runner.get_result()[name][0]
+            interp = runner.configs.interpolator
+            ref = {0: np.zeros((14, N)), 1: np.zeros((14, N))}
+            pj = np.array([float(p_(x)) for p_ in interp])
+            cq = x * indep_convolution(published_rsl(c["kind"] + "q", nf), x, interp, grid)
+            cg = x * indep_convolution(published_rsl(c["kind"] + "g", nf), x, interp, grid) / nf
+            for q_ in range(1, nf + 1):
+                for sg in (1, -1):
+                    if c["kind"] == "F2":
+                        ref[0][PIDS.index(sg * q_)] = e2[q_] * x * pj
+                    ref[1][PIDS.index(sg * q_)] = e2[q_] * cq
+                ref[1][PIDS.index(21)] += e2[q_] * cg
+        except Exception as e:  # noqa
+            chk.search_case(oracle, False, what=f"{name} {c}: {type(e).__name__}: {e}"[:220], data=case)
+            continue
+        worst, at, scale = 0.0, None, 0.0
+        for o in (0, 1):
+            v = np.asarray(real.orders[(o, 0, 0, 0)][0]) if (o, 0, 0, 0) in real.orders else np.zeros_like(ref[o])
+            e = np.asarray(real.orders[(o, 0, 0, 0)][1]) if (o, 0, 0, 0) in real.orders else np.zeros_like(ref[o])
+            scale = max(scale, float(np.abs(ref[o]).max()), float(np.abs(v).max()))
+        for o in (0, 1):
+            v = np.asarray(real.orders[(o, 0, 0, 0)][0]) if (o, 0, 0, 0) in real.orders else np.zeros_like(ref[o])
+            e = np.asarray(real.orders[(o, 0, 0, 0)][1]) if (o, 0, 0, 0) in real.orders else np.zeros_like(ref[o])
+            ex = np.abs(v - ref[o]) - (2e-7 * max(scale, 1e-300) + 5.0 * np.abs(e))
+            if ex.max() > worst:
+                idx = np.unravel_index(int(ex.argmax()), ex.shape)
+                worst, at = float(ex.max()), dict(order=o, pid=PIDS[idx[0]], basis=int(idx[1]), real=float(v[idx]), reference=float(ref[o][idx]))
+        case.update(at=at, scale=scale)
+        chk.search_case(oracle, worst <= 0.0, what=f"{name} EM ZM-VFNS PTO={c['pto']} PTODIS={c['ptodis']} kcThr={c['kc']} kbThr={c['kb']} Q2={c['Q2']} (nf={nf}) x={x:.4g}: entry {at} differs from the published coefficient function convolved with the basis", data=case, sample=case if i == 0 else None, nontrivial=scale > 0)
 
 
 def run(tier):
@@ -218,6 +299,7 @@ def run(tier):
     search_closed_forms(chk, r)
     search_sum_rules(chk, thorough)
     search_sum_rules_on_kernels(chk, thorough)
+    search_runs_vs_closed_forms(chk, r, 24 if thorough else 4)
     chk.assumptions += [
         "PARTIAL for the sum rules. Proved: all seven NLO closed forms for all 0<z<1 and all nf on the terms regenerated from the source (and the class -> kernel/coefficients table read from the live classes), GLS(NLO) - Adler(NLO) = -4 exactly, Bjorken(NLO) = GLS(NLO), the plus-distribution has no first moment. The value of the Adler moment at NLO needs int_0^1 ln z/(1-z) = -pi^2/6 (not in Mathlib) and the NNLO/N3LO coefficients are fitted parametrisations: the sum rules are evaluated numerically on the real functions, with tolerances equal to the published accuracy of the parametrisations (2e-3 / 0.3 on the Adler moment, 3e-2 / 0.3 on GLS/Bjorken against values of O(50) / O(1000))",
         "the non-singlet GLS coefficient is compared with the Larin-Vermaseren series without the light-by-light (d_abc) term, which yadism carries in a separate flavour class",
